@@ -186,6 +186,9 @@ func (v *FetchScopeVariables) Get(s context.Scope, name string) (value.Value, er
 
 	case BERESP_RESPONSE:
 		return v.ctx.BackendResponseResponse, nil
+	case BERESP_SAINTMODE:
+		// The set statement looks up the current value before assignment
+		return v.ctx.BackendResponseSaintMode, nil
 	case BERESP_STALE_IF_ERROR:
 		return v.ctx.BackendResponseStaleIfError, nil
 	case BERESP_STALE_WHILE_REVALIDATE:
